@@ -231,7 +231,7 @@ func (g *Gen) plan(bulk bool, req []int, avoid map[int]bool) Plan {
 		p.Out = OutNotFoundWrapped
 	default:
 		p.Out = OutPanic
-		p.Pan = r.Intn(2)
+		p.Pan = r.Intn(4)
 	}
 	if r.Chance(1, 7) {
 		p.Nest = 1 + r.Intn(2)
